@@ -120,9 +120,9 @@ func (w *World) CheckBalances(n *Node, addrs []string) {
 		}
 	}
 	after, err := TakeSnap(n.Book)
-	if err == nil && len(before.Parked) == 0 && len(after.Parked) == 0 {
+	if err == nil && !n.BackgroundMayAct(before) && !n.BackgroundMayAct(after) {
 		if before.Digest() != after.Digest() {
-			w.Violate("C06", "query-changed-ledger", fmt.Sprintf("node %s: the ledger state differs before and after balance queries (live %d -> %d, index %d -> %d)", n.Name, len(before.Live), len(after.Live), len(before.Index), len(after.Index)))
+			w.Violate("C06", "query-changed-ledger", fmt.Sprintf("node %s: the ledger state differs before and after balance queries (live %d -> %d, index %d -> %d): %s", n.Name, len(before.Live), len(after.Live), len(before.Index), len(after.Index), DigestDiff(before, after)))
 		}
 		w.Res.Count("c06_digest_comparisons", 1)
 	}
@@ -161,6 +161,9 @@ func (w *World) AllAddresses() []string {
 		out = append(out, n.Actor.Addr)
 	}
 	for _, s := range w.Sealers {
+		out = append(out, s.Addr)
+	}
+	for _, s := range w.Extra {
 		out = append(out, s.Addr)
 	}
 	return out
